@@ -104,6 +104,9 @@ pub const ZERO_SIZED: &[(&str, &str, &[usize], usize)] = &[
     ("join keys only n3m3", "pub fn main(a: [u16; 3], b: [u16; 3]) -> [(bool, u16); 5] {\n  join(a, b)\n}\n", &[48, 48], 85),
     ("join_iter a wider n3m2", "pub fn main(a: [(u8, u32); 3], b: [(u8, u8); 2]) -> u32 {\n  let mut s = 0u32;\n  for ((_, x), (_, y)) in join_iter(a, b) {\n    s = s ^ x ^ (y as u32);\n  }\n  s\n}\n", &[120, 32], 32),
     ("join_iter b wider n1m4", "pub fn main(a: [(u8, bool); 1], b: [(u8, u32); 4]) -> u32 {\n  let mut s = 0u32;\n  for ((_, x), (_, y)) in join_iter(a, b) {\n    if x {\n      s = s ^ y;\n    }\n  }\n  s\n}\n", &[9, 160], 32),
+    ("const-sized arrays of structs and enums", "const N: usize = 2usize;\nstruct P { x: u8, y: bool }\nenum O { A, B(u8) }\nfn first(ps: [P; N]) -> P {\n  ps[0]\n}\npub fn main(ps: [P; N], os: [O; N]) -> ([P; N], u8, P) {\n  let qs = ps;\n  let mut rs: [P; N] = qs;\n  rs[1].x = 1u8;\n  let n = match os[0] {\n    O::A => 0u8,\n    O::B(v) => v,\n  };\n  (rs, n, first(ps))\n}\n", &[18, 18], 18 + 8 + 9),
+    ("const-sized array of tuples with nested const-sized array", "const N: usize = 2usize;\nconst M: usize = 3usize;\nstruct P { x: [u8; M] }\npub fn main(ps: [(P, bool); N], y: u8) -> [(P, bool); N] {\n  let mut qs = ps;\n  for i in 0usize..2usize {\n    qs[i].0.x[0] = y;\n  }\n  qs\n}\n", &[50, 8], 50),
+    ("single const-sized array of structs param", "const N: usize = 3usize;\nstruct P { x: u8, y: bool }\npub fn main(ps: [P; N]) -> u8 {\n  ps[0].x + ps[2].x\n}\n", &[9, 9, 9], 8),
     ("single array param 3", "pub fn main(x: [u16; 3]) -> u16 {\n  x[0]\n}\n", &[16, 16, 16], 16),
     ("single array of arrays", "pub fn main(x: [[u8; 2]; 2]) -> u8 {\n  x[1][0]\n}\n", &[16, 16], 8),
 ];
